@@ -406,9 +406,16 @@ def method_of(op):
     return cls, getattr(cls, meth)
 
 
-def arg_spec(op, rng, consts, variant_hint, benign):
+MARK_RE = re.compile(r'Q[0-9bcdfghjkmnpqrstvwxz]{7}')
+FALSY_STR = ['']
+FALSY_ANY = ['', 0, 0.0, False]      # what `if v` drops although `v is not None`
+
+
+def arg_spec(op, rng, consts, variant_hint, benign, falsy=False):
     """JSON-able description of one invocation: identifier arguments, the *shape* of the data arguments, and two
-    assignments of stored values to that shape."""
+    assignments of stored values to that shape.  falsy: the first assignment is benign, the second is the same
+    shape with some stored values replaced by edge values ('' everywhere, also 0 / 0.0 / False for prop_val) -
+    a statement / parameter set that depends on the *truthiness* of a stored value shows up as a difference."""
     cls, fn = method_of(op)
     sig = inspect.signature(fn)
     idents, shape = {}, {}
@@ -459,10 +466,43 @@ def arg_spec(op, rng, consts, variant_hint, benign):
             continue
         elif name == 'sliver':
             shape[name] = {'node_sliver': 1}
+        elif p.default is None and variant_hint % 3 == 1:
+            shape[name] = None            # an optional argument left out is part of the shape, not a stored value
         else:
             shape[name] = {'str': 1}
-    vals = [fill(shape, rng, benign), fill(shape, rng, benign)]
+    if falsy:
+        vals = [fill(shape, rng, True), falsify(fill(shape, rng, True), shape, rng, op)]
+    else:
+        vals = [fill(shape, rng, benign), fill(shape, rng, benign)]
     return idents, shape, vals
+
+
+def falsify(vals, shape, rng, op):
+    """replace a non-empty random subset of the stored values of one assignment by falsy edge values"""
+    slots = [] if op.startswith('Neo4jGraphImporter.') else [('__gid__', None)]
+    for name, sh in shape.items():
+        if sh is None or vals.get(name) is None:
+            continue
+        if 'str' in sh or 'intval' in sh or 'graph' in sh:
+            slots.append((name, None))
+        elif 'dict' in sh or 'list' in sh:
+            slots += [(name, i) for i in range(len(vals[name]))]
+    if not slots:
+        return vals
+    chosen = [sl for sl in slots if rng.random() < 0.5] or [rng.choice(slots)]
+    # the single-property update value is the slot most likely to be tested for truth: never leave it out
+    chosen += [sl for sl in slots if sl[0] == 'prop_val' and sl not in chosen]
+    for name, i in chosen:
+        pool = FALSY_ANY if name == 'prop_val' else FALSY_STR
+        f = rng.choice(pool)
+        if i is None:
+            vals[name] = f
+        elif 'dict' in shape[name]:
+            vals[name][i][1] = f
+        else:
+            vals[name][i] = f
+    vals['__falsy__'] = sorted({n for n, _ in chosen})
+    return vals
 
 
 def fill(shape, rng, benign):
@@ -513,7 +553,8 @@ def stored_strings(shape, vals, op=''):
             out += [(name, x) for x in v]
         elif 'str' in sh:
             out.append((name, v))
-    return out
+    # edge values ('' / 0 / False ...) carry no marker: they are judged by the comparison of the two assignments
+    return [(n, v) for n, v in out if isinstance(v, str) and MARK_RE.search(v)]
 
 
 def build_args(op, receiver_cls, idents, shape, vals):
@@ -701,8 +742,9 @@ class Ops(Stream):
                 out.append({'op': op, 'unsupported': 'class %s can not be imported by the harness: %r' % (cls, e)})
                 continue
             for i in range(per_op):
+                falsy = i % 4 == 3
                 try:
-                    idents, shape, vals = arg_spec(op, rng, consts, i, benign=(i % 5 == 4))
+                    idents, shape, vals = arg_spec(op, rng, consts, i, benign=(i % 5 == 4), falsy=falsy)
                 except Exception as e:
                     out.append({'op': op, 'unsupported': repr(e)})
                     break
@@ -710,7 +752,7 @@ class Ops(Stream):
                 if cls == 'Neo4jPropertyGraph':
                     recv = SUBCLASSES[i % len(SUBCLASSES)] if i % 2 else cls
                 out.append({'op': op, 'recv': recv, 'idents': idents, 'shape': shape, 'vals': vals,
-                            'benign': i % 5 == 4, 'fake': self.fake(rng, i, consts)})
+                            'benign': i % 5 == 4 or falsy, 'falsy': falsy, 'fake': self.fake(rng, i, consts)})
         # composite public operations inherited from the abstract layer: they issue their statements through the
         # sites above, with identifier arguments that are interface constants and stored values passed on
         per_c = 6 if tier == 'quick' else 40
@@ -766,13 +808,19 @@ class Ops(Stream):
                 return '%s: unexercised: %s' % (case['op'], r['exc'])
         r1, r2 = runs
         ids = ident_params()
+
+        def which(j):
+            fl = case['vals'][j].get('__falsy__')
+            return ' [called as %s, value assignment %d%s; parameters supplied: %%s]' % (
+                case['op'], j + 1, (', falsy stored value(s): ' + ', '.join(
+                    '%s=%r' % (n.replace('__gid__', 'graph_id'), case['vals'][j].get(n)) for n in fl)) if fl else '')
         # (a) structure, on benign values only (so that a broken bracket is told apart from an injected one)
         if case.get('benign'):
-            for r in runs:
+            for j, r in enumerate(runs):
                 for s in r['stmts']:
                     why = py_wf(s['text'], s['kws'])
                     if why:
-                        return '%s: ill-formed: sends %r : %s' % (s['op'], s['text'][:300], why)
+                        return '%s: ill-formed: sends %r : %s%s' % (s['op'], s['text'][:300], why, which(j) % s['kws'])
         # (b) the text may depend on identifiers only
         if len(r1['stmts']) != len(r2['stmts']):
             return '%s: value-interpolated: the number of statements depends on stored values' % case['op']
@@ -786,18 +834,23 @@ class Ops(Stream):
             stored = stored_strings(case['shape'], vals, case['op'])
             for s in r['stmts']:
                 for name, v in stored:
-                    mk = re.search(r'Q[0-9bcdfghjkmnpqrstvwxz]{7}', v).group()
+                    mk = MARK_RE.search(v).group()
                     if mk in s['text']:
                         return '%s: value-interpolated: pastes the stored value of %s into the text: %r' % (
                             s['op'], name, s['text'][:300])
         # (c) well-formed, parameters supplied, variables bound - for every value
-        for r in runs:
+        for j, r in enumerate(runs):
             for s in r['stmts']:
                 if s['positional'] not in (1, 2):
                     return '%s: ill-formed: passes %d positional arguments to run' % (s['op'], s['positional'])
-                why = py_wf(s['text'], s['kws'])
+                why = py_wf(s['text'], s['kws'])      # includes: every $name of the text is among the supplied keywords
                 if why:
-                    return '%s: ill-formed: sends %r : %s' % (s['op'], s['text'][:300], why)
+                    return '%s: ill-formed: sends %r : %s%s' % (s['op'], s['text'][:300], why, which(j) % s['kws'])
+        # (c') the set of parameters handed over may not depend on the stored values either
+        for s1, s2 in zip(r1['stmts'], r2['stmts']):
+            if s1['kws'] != s2['kws']:
+                return '%s: param-set-depends-on-value: the same statement gets the parameters %s for one assignment of ' \
+                       'stored values and %s for another%s' % (s1['op'], s1['kws'], s2['kws'], which(1) % s2['kws'])
         # (d) every stored value arrives intact as (part of) a parameter (primitive operations only: the composite
         #     ones legitimately encode their arguments, e.g. set_mapping stores json.dumps([graph, node]))
         for r, vals in zip(runs, case['vals']) if not case.get('composite') else []:
@@ -840,6 +893,7 @@ class Ops(Stream):
             h['statements_recorded'] += n
             h['no_statement'] += n == 0
             h['benign_cases'] += bool(c.get('benign'))
+            h['falsy_value_cases'] = h.get('falsy_value_cases', 0) + bool(c.get('falsy'))
             k = c.get('recv', '?')
             h['by_class'][k] = h['by_class'].get(k, 0) + 1
         h['templates_hit'] = len(hit - {None})
@@ -859,6 +913,8 @@ class Ops(Stream):
             c = copy.deepcopy(best)
 
             def simp(v, j):
+                if isinstance(v, (str, int, float)) and not v:
+                    return v                      # an edge value ('' / 0 / False) is the point of the case
                 if isinstance(v, str):
                     mk = re.search(r'Q[0-9bcdfghjkmnpqrstvwxz]{7}', v)
                     return (mk.group() if mk else 'Q0000000') + (piece if j == 0 else '')
@@ -867,6 +923,8 @@ class Ops(Stream):
                 return v
             for j, vals in enumerate(c['vals']):
                 for k in list(vals.keys()):
+                    if k == '__falsy__':
+                        continue
                     sh = c['shape'].get(k)
                     if k == '__gid__' or (sh and ('str' in sh or 'graph' in sh or 'list' in sh)):
                         vals[k] = simp(vals[k], j)
@@ -1099,9 +1157,27 @@ class C19(Check):
         except Exception as e:
             out.append({'name': 'known_ops pinned in Model/Cypher19.v = operations of known_findings', 'ok': False,
                         'detail': repr(e)})
-        analysis()
+        a = analysis()
         out.append({'name': 'translator recognised every session.run site (python side)', 'ok': _AN.get('err') is None,
                     'detail': _AN.get('err')})
+        # the same facts the Coq obligation C19_all_operations_checked_partial decides, stated per operation so that
+        # a broken obligation names the operation and what the translator saw there
+        try:
+            import gen_cypher
+            known_ops = set(coq_ops)
+            offenders = []
+            for t in a['templates']:
+                vh = sorted({f.src for f in t['frags'] if isinstance(f, gen_cypher.Hole) and f.kind == 'value'})
+                if (vh and t['op'] not in known_ops) or not t['kws_known']:
+                    offenders.append({'operation': t['op'], 'line': '%s:%d' % (t['file'], t['line']),
+                                      'value_class_holes': vh,
+                                      'keyword_set': 'depends on run-time data (**dict / computed parameter dict)'
+                                      if not t['kws_known'] else t['kws']})
+            out.append({'name': 'no statement outside the known findings has a value-class hole or a computed keyword set',
+                        'ok': not offenders, 'detail': offenders[:8]})
+        except Exception as e:
+            out.append({'name': 'no statement outside the known findings has a value-class hole or a computed keyword set',
+                        'ok': False, 'detail': repr(e)})
         return out
 
     def refuted_witnesses(self):
